@@ -471,20 +471,33 @@ def outliers(ctx):
            masked_ok and n_masked >= 2 and pair_ok and n_pairs >= 2,
            f"{n_masked} arrays indexed by a reject_outliers result (all by the mask: {masked_ok}); {n_pairs} weighted "
            f"averages pair filtered weights with arrays masked by the same call: {pair_ok}", drv)
-    # which column
-    first_two = sorted(calls, key=lambda t: dev.line_of.get(t.uid, 0))[:2]
-    cols = []
-    for c in first_two:
-        _, pos, _ = call_parts(c)
-        cols.append(pos[1].args[0] if len(pos) > 1 and pos[1].op == "const" else None)
-    conds = []
-    for e in dev.events:
-        if e.kind == "call" and e.data in first_two:
-            conds.append([(show(cnd, maxdepth=4), pol) for cnd, pol in e.path][-1:])
-    ok_col = cols == [2, 1] and len(conds) == 2 and conds[0] and conds[1] and conds[0][0][0] == conds[1][0][0] and \
-        conds[0][0][1] is True and conds[1][0][1] is False and "ad_mode" in conds[0][0][0] and "2rdm" in conds[0][0][0]
+    # which column: the observable column (2) exactly when an observable is sampled (ad_mode set and not '2rdm'), the
+    # energy column (1) otherwise -- written as two calls under an if / else or as one call with a selected column
+    main = [c_ for c_ in calls if not any(True for _ in outer_results(call_parts(c_)[1][0]))] if calls else []
+    sel = None      # (condition rendering, column when true, column when false)
+    if len(main) == 2:
+        info = []
+        for c_ in sorted(main, key=lambda t: dev.line_of.get(t.uid, 0)):
+            _, pos, _ = call_parts(c_)
+            col = pos[1].args[0] if len(pos) > 1 and pos[1].op == "const" else None
+            cnd = None
+            for e in dev.events:
+                if e.kind == "call" and e.data is c_ and e.path:
+                    cnd = e.path[-1]
+            info.append((col, cnd))
+        if all(i_[1] is not None for i_ in info) and info[0][1][0] is info[1][1][0] and info[0][1][1] != info[1][1][1]:
+            t_col = info[0][0] if info[0][1][1] else info[1][0]
+            f_col = info[1][0] if info[0][1][1] else info[0][0]
+            sel = (show(info[0][1][0], maxdepth=4), t_col, f_col)
+    elif len(main) == 1:
+        _, pos, _ = call_parts(main[0])
+        col = strip_wrappers(pos[1]) if len(pos) > 1 else None
+        if col is not None and col.op == "phi" and col.args[1].op == "const" and col.args[2].op == "const":
+            sel = (show(col.args[0], maxdepth=4), col.args[1].args[0], col.args[2].args[0])
+    ok_col = sel is not None and sel[1] == 2 and sel[2] == 1 and "ad_mode" in sel[0] and "2rdm" in sel[0]
     ctx.ob("PAIR-4", "driver.afqmc: outliers are judged on the observable column exactly when an observable is sampled",
-           ok_col, f"columns {cols} under {conds[0][0][0] if conds and conds[0] else '?'}", drv)
+           ok_col, f"column {sel[1]} if {sel[0]} else {sel[2]}" if sel else f"{len(main)} first-stage reject_outliers call(s), "
+           "column selection not recognised", drv)
 
 
 def jackknife(ctx):
